@@ -1,6 +1,6 @@
 (* C05: judge for counting / enumeration observables. *)
 From Coq Require Import List ZArith Bool String NArith.
-From GS Require Import Spec.Base Spec.PB Judge.Sx.
+From GS Require Import Spec.Base Spec.PB Spec.Solver Spec.URef Judge.Sx.
 Import ListNotations.
 Open Scope string_scope.
 Open Scope Z_scope.
@@ -14,7 +14,7 @@ Definition judge_C05 (s : sx) : verdict :=
     | None => Bad "C05: problem"
     | Some (n, P) =>
       if Z.of_nat n <? maxvar_uproblem P then Bad "C05: nbvars" else
-      let expected := Z.of_N (ucount_dec n P) in
+      let expected := Z.of_N (ucount n P) in
       if st =? 1 then Fail "panic" [expected] else
       if st =? 2 then Fail "timeout" [expected] else
       match omap dbools ms with
